@@ -495,6 +495,7 @@ def run(ctx):
                ok, "found %d" % have)
     ctx.count("xxh64_fingerprint_pairs", len(fp))
     ctx.floor("XXH64 constant sites", sum(fp.values()), 40)
+    _xxh64_schedule(ctx, xf)
 
 
 def _elem_size(node):
@@ -594,3 +595,84 @@ def _first_cfg_node(fn, stmt):
             if best is None or n.i < best.i:
                 best = n
     return best
+
+
+def _xxh64_schedule(ctx, xf):
+    """(6c) consumption schedule of XXH64 by cursor-skeleton execution: for every length the stripe
+    phase (the loop that feeds the four accumulators) consumes exactly 32*floor(len/32) bytes in 8-byte
+    lanes when len >= 32, then 8-byte words while >= 8 remain, at most one 4-byte word, then single
+    bytes; every byte is consumed once, in order. Input contents are never read."""
+    from ..rules.skeleton import Interp, Ptr, U, Budget, Stop
+    P = ctx.P
+    params = xf.params
+    if len(params) != 3:
+        raise AnalysisBroken("carquet_xxhash64: expected (data, length, seed)")
+    stripe_loops = [n for n in xf.body.walk() if n.k in ("DoStmt", "WhileStmt", "ForStmt")
+                    and sum(1 for c in n.walk() if c.k == "CallExpr" and c.callee == "xxh64_round") >= 4]
+    if len(stripe_loops) != 1:
+        raise AnalysisBroken("carquet_xxhash64: stripe loop (four accumulator rounds) not found")
+    stripe = stripe_loops[0]
+
+    def in_stripe(node):
+        x = node
+        while x is not None:
+            if x is stripe:
+                return True
+            x = x.parent
+        return False
+    bad = None
+    runs = 0
+    NMAX = ctx.depth(200, 700)
+    for L in range(0, NMAX + 1):
+        it = Interp(P, xf, budget=400000)
+        ev = []
+
+        def rd(width):
+            def f(i_, node, args, width=width):
+                p = args[0]
+                if not isinstance(p, Ptr) or p.base != "data":
+                    raise Stop("read through an untracked pointer")
+                ev.append((p.off, width, in_stripe(node)))
+                return U
+            return f
+        it.hooks["read64_le"] = rd(8)
+        it.hooks["read32_le"] = rd(4)
+        try:
+            outs = it.run([Ptr("data", 0, 1), L, 0])
+        except (Budget, Stop) as ex:
+            ctx.inconclusive("R4.skeleton", "xxh64-schedule|%s" % XX, P.where(xf.body),
+                             "skeleton execution of carquet_xxhash64", str(ex))
+            return
+        if len(outs) != 1:
+            ctx.inconclusive("R4.skeleton", "xxh64-schedule|%s" % XX, P.where(xf.body),
+                             "carquet_xxhash64 branches on input contents (%d outcomes)" % len(outs))
+            return
+        runs += 1
+        for a in outs[0][0]:
+            if a.base == "data":
+                ev.append((a.lo, a.hi - a.lo, in_stripe(a.node)))
+        ev.sort()
+        want = []
+        pos = 0
+        if L >= 32:
+            while pos + 32 <= L:
+                for _ in range(4):
+                    want.append((pos, 8, True))
+                    pos += 8
+        while pos + 8 <= L:
+            want.append((pos, 8, False))
+            pos += 8
+        if pos + 4 <= L:
+            want.append((pos, 4, False))
+            pos += 4
+        while pos < L:
+            want.append((pos, 1, False))
+            pos += 1
+        if ev != want and bad is None:
+            diff = next((i for i, (a, b) in enumerate(zip(ev, want)) if a != b), min(len(ev), len(want)))
+            bad = "length %d: read #%d is %s, XXH64 reads %s (offset, width, in stripe phase)" % (
+                L, diff, ev[diff] if diff < len(ev) else None, want[diff] if diff < len(want) else None)
+    ctx.count("xxh64_schedule_runs", runs)
+    ctx.ob("R4.skeleton", "xxh64-schedule|%s:carquet_xxhash64" % XX, P.where(xf.body),
+           "for every length 0..%d the input is consumed in XXH64's schedule: 32-byte stripes while 32 bytes "
+           "remain, then 8-byte words, one 4-byte word, single bytes" % NMAX, bad is None, bad or "")
